@@ -239,9 +239,14 @@ REWRITES = [rw_split_edge, rw_add_unreachable, rw_add_dead, rw_duplicate_state, 
 
 def edit_one_edge(rng, n: NFA):
     st, sy, tr, init, fin = _parts(n)
-    k = rng.randrange(5)
+    k = rng.randrange(6)
     states = list(st)
-    if k == 0:   # flip finality
+    if k == 5:   # same table, same final set, another initial state (a field-by-field shortcut must compare it)
+        cands = [q for q in states if q in tr and q != init]
+        if not cands:
+            return None
+        init = rng.choice(cands)
+    elif k == 0:   # flip finality
         q = rng.choice(states)
         fin ^= {q}
     elif k == 1:  # add an edge
